@@ -18,6 +18,7 @@ def sh(cmd, cwd=None, env=None, timeout=3600):
 
 
 def recheck(d):
+    d = os.path.abspath(d)
     meta_p = os.path.join(d, "meta.json")
     meta = json.load(open(meta_p))
     pid = meta["property"]
